@@ -783,16 +783,32 @@ def rule_changed_set(ck, repo):
         f = repo.lookup(mc, name)
         ck.require(f is not None and f.cls is mc, f'MoleculeContainer.{name} vanished')
         ifs = [n for n in ast.walk(f.node) if isinstance(n, ast.If) and src(n.test) in ('self._changed is None', 'self._changed is not None')]
+        site = None      # node of f that stands for the bookkeeping (the if itself, or the call of an extracted private method)
+        rename = {}      # parameter of the extracted method -> argument at the call site
+        if len(ifs) != 1:
+            # "extract method": the bookkeeping may live in a private method called as self._x(...)
+            for c in ast.walk(f.node):
+                if isinstance(c, ast.Call) and isinstance(c.func, ast.Attribute) and src(c.func.value) == 'self' and c.func.attr.startswith('_'):
+                    g = repo.lookup(mc, c.func.attr)
+                    if g is None:
+                        continue
+                    gi = [n for n in ast.walk(g.node) if isinstance(n, ast.If) and src(n.test) in ('self._changed is None', 'self._changed is not None')]
+                    ps = [p_ for p_ in g.params() if p_ != 'self']
+                    if len(gi) == 1 and len(ps) == len(c.args) and not c.keywords:
+                        ifs, site, rename = gi, c, {p_: src(a) for p_, a in zip(ps, c.args)}
+                        break
         if len(ifs) != 1:
             ck.defer(f'{name}: `if self._changed is None` bookkeeping not found')
             continue
         i = ifs[0]
+        if site is None:
+            site = i
         create, add = (i.body, i.orelse) if src(i.test) == 'self._changed is None' else (i.orelse, i.body)
         created = set()
         for s in create:
             if isinstance(s, ast.Assign) and src(s.targets[0]) == 'self._changed' and isinstance(s.value, ast.Set):
-                created = {src(e) for e in s.value.elts}
-        added = {src(c.args[0]) for s in add for c in ast.walk(s) if isinstance(c, ast.Call) and src(c.func) == 'self._changed.add' and c.args}
+                created = {rename.get(src(e), src(e)) for e in s.value.elts}
+        added = {rename.get(src(c.args[0]), src(c.args[0])) for s in add for c in ast.walk(s) if isinstance(c, ast.Call) and src(c.func) == 'self._changed.add' and c.args}
         ck.decide(created == added and created, R, f'{name}:branches-agree', sorted(created),
                   f'{name}: create-branch records {sorted(created)}, add-branch records {sorted(added)}', file=f.file, line=i.lineno, func=f.qualname)
         if want is not None:
@@ -804,7 +820,7 @@ def rule_changed_set(ck, repo):
             ck.decide(tgt and created == {tgt[0]}, R, 'add_atom:new-number', sorted(created),
                       f'add_atom records {sorted(created)} instead of the number returned by Graph.add_atom', file=f.file, line=i.lineno)
         else:  # delete_atom: the neighbours of the removed atom
-            loops = [l for l in ast.walk(f.node) if isinstance(l, ast.For) and i in list(ast.walk(l))]
+            loops = [l for l in ast.walk(f.node) if isinstance(l, ast.For) and site in list(ast.walk(l))]
             ok = False
             if loops:
                 l = loops[-1]
@@ -818,7 +834,7 @@ def rule_changed_set(ck, repo):
         for p in ast.walk(f.node):
             for ch in ast.iter_child_nodes(p):
                 parents[ch] = p
-        p = parents.get(i)
+        p = parents.get(site)
         while p is not None and p is not f.node:
             if isinstance(p, ast.If):
                 guards.append(src(p.test))
